@@ -79,6 +79,25 @@ def group_fmmus(prog, rep, tag):
                 errs = [x for x in q.aggregates(b, "Error", "PdiTooLong")]
                 okc = bool(oks) and bool(errs) and all(bi in q.edge_dominated(b, cd.bb, le_t) for bi, _, _ in oks) and all(bi in q.edge_dominated(b, cd.bb, gt_t) for bi, _, _ in errs)
     rep.ob(P, "capacity-check" + tag, okc, "Ok(()) is returned only where pdi_len <= MAX_PDI; otherwise Err(PdiTooLong)", loc=b.span)
+    # a group that does not fit must not leave mappings behind: its FMMUs would reach past its own
+    # [start, start + MAX_PDI) range into the next group's, and that group's outputs would also land here
+    errs = [x for x in q.aggregates(b, "Error", "PdiTooLong")]
+    progs = b.calls_to("configuration::configure_fmmus")
+    after = [e for e in errs if any(e[0] in b.reachable_strict(c.bb) for c in progs)]
+    if after:
+        # is anything written to the FMMU registers between the check and the return?
+        cleared = False
+        for e in after:
+            for c in b.calls():
+                if c.bb in b.reachable_strict(progs[-1].bb) and e[0] in b.reachable_from(c.bb):
+                    if c.is_("RegisterAddress::fmmu") or any(x[0] == "agg" and x[1] == "RegisterAddress" and str(x[2]).startswith("Fmmu") for a in c.args for x in pr.of_operand(a)):
+                        cleared = True
+        if cleared:
+            rep.ob(P, "too-long-after-programming" + tag, True, "PdiTooLong is detected after the members were programmed, and their FMMUs are cleared before the error is returned", loc=b.span)
+        else:
+            rep.violation(P, "too-long-after-programming" + tag, "SubDeviceGroup::configure_fmmus returns PdiTooLong only after every member's sync managers and FMMUs were written, and leaves them enabled: the mappings of the group that did not fit reach beyond its own logical range, so process data of the following group is also copied to/from these SubDevices", loc=b.loc(after[0][0], after[0][1]))
+    else:
+        rep.ob(P, "too-long-after-programming" + tag, bool(errs), "PdiTooLong is decided before anything is written to the members", loc=b.span)
 
 
 def device_fmmus(prog, rep, tag):
